@@ -44,6 +44,16 @@ func (e *cpEngine) evalSlice(fr *cpFrame, x *ssa.Slice) cpVal {
 			}
 			return cpSlice{T: x.Type(), Elems: b.Elems[lo:hi]}
 		}
+	case cpStrSym:
+		lo, ok1 := bound(x.Low, 0)
+		hi, ok2 := bound(x.High, b.Len)
+		if ok1 && ok2 {
+			if lo < 0 || hi > b.Len || lo > hi {
+				e.fail("panic-instr")
+			}
+			return cpStrSym{ID: b.ID, Off: b.Off + lo, Len: hi - lo}
+		}
+		e.fail("a symbolic string sliced at an unknown position")
 	case cpStr:
 		lo, ok1 := bound(x.Low, 0)
 		hi, ok2 := bound(x.High, int64(len(b.V)))
@@ -114,6 +124,15 @@ func cpKey(v cpVal) (string, bool) {
 func (e *cpEngine) evalLookup(fr *cpFrame, x *ssa.Lookup) cpVal {
 	m := e.get(fr, x.X)
 	kv := e.get(fr, x.Index)
+	if s, isSym := m.(cpStrSym); isSym {
+		if i, ok := kv.(cpInt); ok {
+			if i.V < 0 || i.V >= s.Len {
+				e.fail("panic-instr")
+			}
+			return cpUnk{ID: fmt.Sprintf("%s[%d]", s.ID, s.Off+i.V), Deps: fmt.Sprintf(",%d,", s.Off+i.V)}
+		}
+		e.fail("a symbolic string indexed at an unknown position")
+	}
 	if s, isStr := m.(cpStr); isStr {
 		if i, ok := kv.(cpInt); ok {
 			if i.V < 0 || i.V >= int64(len(s.V)) {
@@ -174,6 +193,8 @@ func (e *cpEngine) builtin(fr *cpFrame, name string, args []cpVal, typ types.Typ
 		switch s := args[0].(type) {
 		case cpStr:
 			return cpInt{int64(len(s.V))}, true
+		case cpStrSym:
+			return cpInt{s.Len}, true
 		case cpSlice:
 			if name == "len" {
 				return cpInt{int64(len(s.Elems))}, true
